@@ -628,7 +628,7 @@ def main_check(chk, argv):
                 stream_hist[c.stream] = stream_hist.get(c.stream, 0) + 1
                 if hasattr(c, "h"):
                     for stp in c.h.steps:
-                        k = "%s:%s:%s" % (fname, stp[0][0] + ("/" + stp[0][5][0] if stp[0][0] == "send" else ""), "ok" if stp[1] else "fail")
+                        k = "%s:%s:%s" % (fname, stp[0][0] + ("/" + stp[0][5][0] if stp[0][0] == "send" else "/" + stp[0][6][0] if stp[0][0] == "send_from" else ""), "ok" if stp[1] else "fail")
                         outcome_hist[k] = outcome_hist.get(k, 0) + 1
                 for o in c.results:
                     k = " ".join(o.split()[:2]) if o.startswith("err") else "ok"
